@@ -242,7 +242,7 @@ def run(rep, tier_, rng):
     insts, calls = [], {}
     stats = {"raised": [], "timeouts": 0, "skipped_for_time": 0, "python_level_failures": 0, "points_evaluated": 0,
              "segment_boundaries_used_as_points": 0, "order_runs": 0}
-    gen_budget = 60 if q else 600
+    gen_budget = 55 if q else 600
     for n in range(n_prob):
         if time.time() - t0 > gen_budget:
             stats["skipped_for_time"] = n_prob - n; break
@@ -252,7 +252,7 @@ def run(rep, tier_, rng):
         call = {"fn": "odefun", "regime": spec["prob"], "kclass": spec["prob"], "prec": prec, "spec": spec, "sub_seed": rng.getrandbits(32)}
         sub = random.Random(call["sub_seed"])
         try:
-            R = run_problem(mp, spec, prec, sub, 40 if q else 300)
+            R = run_problem(mp, spec, prec, sub, 25 if q else 300)
         except sweep.CallTimeout:
             stats["timeouts"] += 1; continue
         except Exception as ex:
@@ -276,6 +276,7 @@ def run(rep, tier_, rng):
     regimes = {}
     for c in calls.values():
         regimes[c["regime"]] = regimes.get(c["regime"], 0) + 1
+    insts, not_attempted = calcb.fit_budget(insts, max(30, (115 if q else 1100) - tgen))
     run_and_report(rep, insts, calls, tag="C34_%s" % tier_, params={"sentence_timeout": 60, "single_timeout": 80},
                    budget=max(30, (115 if q else 1100) - tgen), jobs=10,
                    rule="each evaluation = one ODE problem (y'=ay; harmonic oscillator; y'=-y^2; y'=1+y^2; cosh/sinh system; y'=-2xy; y'=P(x); "
@@ -285,7 +286,7 @@ def run(rep, tier_, rng):
                         "precisions interleaved; accuracy lemmas for 3-7 points x all components, one bitwise-equality lemma per re-ordered run; "
                         "distinct = distinct lemma statements; non-trivial = every Interval lemma and every equality lemma",
                    assumptions=ASSUMPTIONS,
-                   extra_cov={"regimes": regimes, "generation_wall_s": round(tgen, 1),
+                   extra_cov={"lemmas_not_attempted_for_time": not_attempted, "regimes": regimes, "generation_wall_s": round(tgen, 1),
                               "tolerance": "tol*max(|ref|,1), tol = 2^(10-p) or the explicit tol; order clause: exact equality", **stats})
     rep.coverage["problems"] = len(calls)
     rep.coverage["evaluations"] = stats["points_evaluated"]      # calls of an interpolant
